@@ -152,6 +152,7 @@ pub fn generate(seed: u64) -> Sc {
             if row.roc {
                 row.sell = false;
             }
+            row.other_security = r.chance(1, 5);
             // explicit zeros are amounts like any other: they do not excuse a missing rate
             row.zero_price = !row.roc && r.chance(1, 12);
             if !row.roc && r.chance(1, 2) {
